@@ -145,6 +145,37 @@ def run_mc(name, workers=8, timeout=3600, xmx="8g"):
         return r
 
 
+def run_apalache_stamp():
+    """Extra (no verdict depends on it): Apalache discharges the inductive invariant of the stamp
+    arithmetic for ARBITRARY MAXSTAMP (spec/apalache/StampInd.tla). Cached by file hash."""
+    f = os.path.join(SPEC, "apalache", "StampInd.tla")
+    d = os.path.join(WORK, "mc", sha([f]))
+    os.makedirs(d, exist_ok=True)
+    res = os.path.join(d, "apalache_StampInd.json")
+    with Lock("apalache"):
+        if os.path.exists(res):
+            r = json.load(open(res))
+            r["cached"] = True
+            return r
+        steps = [("base", ["--init=Init", "--inv=IndInv", "--length=0"]), ("step", ["--init=IndInit", "--inv=IndInv", "--length=1"]),
+                 ("fresh", ["--init=IndInit", "--inv=FreshInv", "--length=1"])]
+        out_dir = os.path.join(WORK, "apalache-out-%d" % os.getpid())
+        r = {"obligations": [], "ok": True, "cached": False, "at": time.strftime("%Y-%m-%dT%H:%M:%S")}
+        t0 = time.time()
+        for name, args in steps:
+            try:
+                rc, out = sh(["apalache-mc", "check", "--cinit=ConstInit"] + args + ["--out-dir=" + out_dir, "StampInd.tla"], cwd=os.path.dirname(f), timeout=600)
+            except subprocess.TimeoutExpired:
+                rc, out = -1, "timeout"
+            ok = rc == 0 and "NoError" in out
+            r["obligations"].append({"name": name, "args": args, "ok": ok})
+            r["ok"] = r["ok"] and ok
+        shutil.rmtree(out_dir, ignore_errors=True)
+        r["wall_s"] = round(time.time() - t0, 1)
+        json.dump(r, open(res, "w"), indent=1)
+        return r
+
+
 def harness_bin(profile="debug", alt=""):
     return os.path.join(WORK, "target" + alt, profile, "itverif")
 
